@@ -711,6 +711,17 @@ func addReflect(e *Engine, m map[string]intrinsic) {
 		}
 		panic(unsupported{"reflect.Value.Slice on this kind"})
 	})
+	V("Slice3", func(p *Path, fr *frame, r *rval, a []value) value {
+		i, j, k := int(mustInt(a[0], "Slice3 i")), int(mustInt(a[1], "Slice3 j")), int(mustInt(a[2], "Slice3 k"))
+		x, ok := r.get().([]value)
+		if !ok {
+			panic(unsupported{"reflect.Value.Slice3 on this kind"})
+		}
+		if i < 0 || j < i || k < j || k > cap(x) {
+			panic(rpanic("reflect.Value.Slice3: slice index out of bounds"))
+		}
+		return &rval{t: r.t, v: x[i:j:k], ro: r.ro}
+	})
 	V("Set", func(p *Path, fr *frame, r *rval, a []value) value { p.rSet(r, rv(a, 0), "Set"); return nil })
 	setScalar := func(name string, kinds []int, conv func(p *Path, r *rval, x value) value) {
 		V(name, func(p *Path, fr *frame, r *rval, a []value) value {
